@@ -81,20 +81,22 @@ Print Assumptions C31_engine_rejects_bare.
 
 (** ---- Identifiers and string literals printed into the IR text by hail.utils.misc.escape_id / escape_str /
     parsable_strings (hail/ir/ir.py, table_ir.py, matrix_ir.py, blockmatrix_ir.py: Ref, GetField, field lists, bound
-    names, function names, key lists ...).  HailG.C31.GenId is REGENERATED from hail/python/hail/utils/misc.py. ---- *)
+    names, function names, key lists ...).  HailG.C31.GenId is REGENERATED from hail/python/hail/utils/misc.py; the
+    theorems target the code WITH fixes/C31-astral.diff and fixes/C31-bare-ascii.diff (on the unfixed source
+    C31_escape_id_generated does not check and the check reports the failing names).
+    The engine's String is a sequence of UTF-16 code units: "the engine reads the name n" means the lexer model yields
+    [utf16 n].  Names and strings range over Unicode SCALAR values; lone surrogates (which a Python str can hold but
+    which cannot be sent as UTF-8, and on which utf16 is not injective) are outside the statements. ---- *)
 
 (** The generated definitions are the hand model the theorems below talk about: the pattern of escape_id with its entry
-    point (re.fullmatch) accepts exactly [is_bare] — for every table of Python's \w above ASCII given as ranges —, the
-    quoted alternative is a back-tick, escape_str(s, backticked=True), a back-tick, and escape_str writes [esc_str_char]
-    for every code point. *)
+    point (re.fullmatch) accepts exactly [is_bare_ascii] (an ASCII letter or underscore, then ASCII letters, digits, underscores), the quoted alternative is a back-tick,
+    escape_str(s, backticked=True), a back-tick, and escape_str writes [esc_str_char] for every code point. *)
 Theorem C31_escape_id_generated : forall (word_hi : list (N * N)) (s : name),
-  word_hi_ok word_hi = true ->
-  (py_accepts C31.GenId.escape_id_mode (C31.GenId.escape_id_regex word_hi) s
-     <-> is_bare (fun c => in_ranges c word_hi) s = true)
+  (py_accepts C31.GenId.escape_id_mode (C31.GenId.escape_id_regex word_hi) s <-> is_bare_ascii s = true)
   /\ C31.GenId.escape_id_quoted s = (96 :: esc_str true s ++ [96])%list
   /\ (forall b, C31.GenId.escape_str b s = esc_str b s).
 Proof.
-  intros hi s Hhi. split; [exact (generated_regex_iff hi s Hhi)|]. split; [exact (generated_escape_id_quoted s)|].
+  intros hi s. split; [exact (generated_regex_iff hi s)|]. split; [exact (generated_escape_id_quoted s)|].
   intro b. exact (generated_escape_str b s).
 Qed.
 Print Assumptions C31_escape_id_generated.
@@ -104,58 +106,52 @@ Theorem C31_parsable_strings_generated : forall strs : list name,
 Proof. exact generated_parsable_strings. Qed.
 Print Assumptions C31_parsable_strings_generated.
 
-(** Engine half for escape_id, proved part: a bare name made of Java identifier characters, and EVERY name of
-    Basic-Multilingual-Plane characters that is back-ticked (control characters, quotes, back-ticks, backslashes, line
-    breaks, non-ASCII letters ...), is read back by the engine's identifier lexer (model) as exactly that name, one token,
-    lexing stops at the delimiter. *)
-Theorem C31_escape_id_engine_partial : forall (java_start_hi java_part_hi uni_word : N -> bool) (n : name) (delim : N) (rest : name),
-  id_engine_safe java_part_hi uni_word n = true -> java_part java_part_hi delim = false ->
-  engine_reads_id java_start_hi java_part_hi uni_word n delim rest.
-Proof. intros js jp uw n D rest Hs HD. exact (engine_reads_id_safe js jp uw n D rest Hs HD). Qed.
-Print Assumptions C31_escape_id_engine_partial.
+(** Engine half for escape_id — the full statement: for EVERY name of Unicode scalar values (bare ASCII identifiers;
+    everything else back-ticked: control characters, quotes, back-ticks, backslashes, line breaks, non-ASCII letters and
+    digits, astral characters as surrogate-pair escapes), whatever Character.isJavaIdentifierStart/Part are above ASCII,
+    the engine's identifier lexer (model) reads exactly that name — its UTF-16 code units —, one token, and stops at the
+    delimiter. *)
+Theorem C31_escape_id_engine_accepts : forall (java_start_hi java_part_hi : N -> bool) (n : name) (delim : N) (rest : name),
+  scalar_name n = true -> java_part java_part_hi delim = false ->
+  engine_reads_id java_start_hi java_part_hi n delim rest.
+Proof. intros js jp n D rest Hs HD. exact (engine_reads_id_all js jp n D rest Hs HD). Qed.
+Print Assumptions C31_escape_id_engine_accepts.
 
-(** ... refuted for ALL names ([engine_accepts_all_ids]) whatever the Unicode tables are: the name U+1F600 ... *)
-Theorem C31_escape_id_engine_refuted : forall (java_start_hi java_part_hi uni_word : N -> bool),
-  ~ engine_accepts_all_ids java_start_hi java_part_hi uni_word.
+(** ... and distinct names of scalar values are distinct Java Strings: what the engine reads denotes the same name. *)
+Theorem C31_utf16_injective : forall a b : name,
+  scalar_name a = true -> scalar_name b = true -> utf16 a = utf16 b -> a = b.
+Proof. intros a b. exact (utf16_inj a b). Qed.
+Print Assumptions C31_utf16_injective.
+
+(** String literals (hail.ir.Str, parsable_strings: escape_str not back-ticked, between double quotes): every string of
+    scalar values is read back exactly by the engine's string-literal lexer (model). *)
+Theorem C31_string_literal_engine_accepts : forall (s rest : name),
+  scalar_name s = true -> engine_reads_str s rest.
+Proof. intros s rest Hs. exact (engine_reads_str_below_max s rest (scalar_below_max s Hs)). Qed.
+Print Assumptions C31_string_literal_engine_accepts.
+
+(** What was wrong BEFORE the two fixes, stated over hand definitions of the previous source text
+    (IdModel.esc_str_char_unfixed: backslash-u + upper_hex(c, 4) for every c > U+007F; IdModel.escape_id_unfixed: bare test
+    [_a-zA-Z]\w* with Python's Unicode \w): U+1F600 was written with FIVE hex digits, which the engine accepts and reads as
+    the two-character name U+1F60 "0" (identifier and string literal alike); and, given the two table facts, a² was sent
+    bare and is not a Java identifier. *)
+Theorem C31_escape_id_unfixed_misread : forall (java_start_hi java_part_hi uni_word : N -> bool),
+  lex_identifier java_start_hi java_part_hi (utf16 (escape_id_unfixed uni_word [128512]) ++ [58]) = Some ([8032; 48], [58])%list
+  /\ lex_string (utf16 (str_literal_unfixed [128512])) = Some ([8032; 48], [])%list
+  /\ (uni_word 178 = true -> java_part_hi 178 = false ->
+      lex_identifier java_start_hi java_part_hi (utf16 (escape_id_unfixed uni_word [97; 178]) ++ [58]) <> Some (utf16 [97; 178], [58])%list).
 Proof.
-  intros js jp uw H. apply (engine_rejects_astral_id js jp uw). apply H; reflexivity.
+  intros js jp uw. split; [exact (unfixed_misreads_astral_id js jp uw)|]. split; [exact unfixed_misreads_astral_str|].
+  exact (unfixed_rejects_bare_superscript_id js jp uw).
 Qed.
-Print Assumptions C31_escape_id_engine_refuted.
-
-(** ... is written as a back-ticked backslash-u followed by FIVE hex digits (1F600); the engine does not reject it: it reads the
-    two-character name U+1F60, "0" — a different name, silently. *)
-Theorem C31_escape_id_misreads_astral : forall (java_start_hi java_part_hi uni_word : N -> bool),
-  lex_identifier java_start_hi java_part_hi (utf16 (escape_id uni_word [128512]) ++ [58]) = Some ([8032; 48], [58])%list.
-Proof. intros js jp uw. exact (engine_misreads_astral_id js jp uw). Qed.
-Print Assumptions C31_escape_id_misreads_astral.
-
-(** Bare names, as for escape_parsable: given the two table facts, a² is emitted bare and is not a Java identifier. *)
-Theorem C31_escape_id_rejects_bare : forall (java_start_hi java_part_hi uni_word : N -> bool),
-  uni_word 178 = true -> java_part_hi 178 = false ->
-  ~ engine_reads_id java_start_hi java_part_hi uni_word [97; 178] 58 [].
-Proof. intros js jp uw Hw Hj. exact (engine_rejects_bare_superscript_id js jp uw Hw Hj). Qed.
-Print Assumptions C31_escape_id_rejects_bare.
-
-(** String literals (hail.ir.Str, parsable_strings: escape_str not back-ticked, between double quotes): every string of BMP
-    characters is read back exactly by the engine's string-literal lexer (model); the astral case is misread the same way. *)
-Theorem C31_string_literal_engine_partial : forall (s rest : name),
-  forallb (fun c => c <? 65536) s = true -> engine_reads_str s rest.
-Proof. intros s rest Hs. exact (engine_reads_str_safe s rest Hs). Qed.
-Print Assumptions C31_string_literal_engine_partial.
-
-Theorem C31_string_literal_misreads_astral :
-  lex_string (utf16 (str_literal [128512])) = Some ([8032; 48], [])%list /\ ~ engine_reads_str [128512] [].
-Proof.
-  split; [exact engine_misreads_astral_str|]. unfold engine_reads_str. rewrite app_nil_r, engine_misreads_astral_str.
-  vm_compute. discriminate.
-Qed.
-Print Assumptions C31_string_literal_misreads_astral.
+Print Assumptions C31_escape_id_unfixed_misread.
 
 Example C31_example_ids :
-  let uw := fun c => (c =? 178) || (c =? 233) in
-  word_hi_ok [(178, 178); (233, 233)] = true
-  /\ id_engine_safe (fun _ => false) uw [97; 10] = true /\ id_engine_safe (fun c => c =? 233) uw [97; 233] = true
-  /\ escape_id uw [97; 98; 99; 10] = [96; 97; 98; 99; 92; 110; 96]%list.
+  scalar_name [97; 233; 10; 128512; 178] = true
+  /\ escape_id [97; 98; 99; 10] = [96; 97; 98; 99; 92; 110; 96]%list
+  /\ escape_id [97; 178] = [96; 97; 92; 117; 48; 48; 66; 50; 96]%list
+  /\ escape_id [128512] = [96; 92; 117; 68; 56; 51; 68; 92; 117; 68; 69; 48; 48; 96]%list
+  /\ escape_id [95; 120; 49] = [95; 120; 49]%list.
 Proof. vm_compute. repeat split. Qed.
 
 (** The hypotheses are satisfiable; a concrete round trip with odd names, by computation (fuel 60). *)
